@@ -1,15 +1,32 @@
 (* Props/C08.v — property theorems only.  Lazy evaluation does not depend on stanza order.
+   Reordering the stanzas of a file PERMUTES the list of blocks (stanza index, match) that `run_lazy` executes.
    PARTIAL: the full statement
-     lazy_perm_invariant : Permutation blocks blocks' -> (run_l blocks = Ok g -> exists g', run_l blocks' = Ok g' /\ g ≅ g') /\ (is_err .. <-> is_err ..)
-   is not proved yet.  Proved here: the order-independence of the two mechanisms the property names —
-   the scoped-variable store ("a scoped variable may be read by a stanza that textually precedes the one
-   defining it") and the deferred graph operations ("an attribute may be put on an edge that a later stanza
-   creates"): the edge and attribute statements that the stanzas deferred give the same graph, and fail or
-   succeed together, in EVERY order (deferred_ops_any_order, deferred_attrs_fail_any_order,
-   lazy_eval_any_order_partial).  What is missing for the whole-run statement is the execution phase:
-   executing the (stanza, match) blocks in another order renumbers graph nodes and store locations.
-   The whole-run statement is explored by the direct permutation stream. *)
-From TSG Require Import Model.Lazy Proofs.Scoped Proofs.PermFacts Proofs.SLGraph Proofs.SLForce Proofs.SLStmt Proofs.StrictLazy Proofs.EvalPerm Proofs.EvalPermLazy.
+     lazy_block_order_iso : Permutation ms ms' -> run_lazy .. ms g0 = Ok (ls, _) ->
+                            exists ls', run_lazy .. ms' g0 = Ok (ls', _) (for enough fuel) /\ l_graph ls ~ l_graph ls'  (and: an error for one order -> no success for the other)
+   is proved on a FRAGMENT (lazy_block_order_iso_partial):
+     - statements `fstmt` of Proofs/SLExpr.v: everything except scoped variables (local variables, `if`, `for`, `scan`, comprehensions, `print`,
+       `node`, `edge`, `attr`, shorthands; sets of graph nodes allowed);
+     - called functions satisfy `call_ok` (graph-pure, commute with order-preserving renamings of graph-node ids, invent no graph-node id):
+       proved for every stdlib function except `node`, `format`, `join` (stdlib_call_ok_partial; format/join render a node reference as text showing its number);
+     - global variables only mention nodes of the initial graph g0, and g0 only mentions its own nodes (gclosed);
+     - no debug attributes (config0): with a location attribute an edge created by two stanzas keeps the attribute of the creating statement evaluated FIRST
+       (c08_debug_attribute_depends_on_order), and textual reordering changes every location anyway;
+     - no cancellation budget;
+     - fuel: lazy_block_order_iso_partial says that the permuted run succeeds FROM SOME FUEL ON (the fuel needed does depend on the order in the model: a thunk may be
+       forced first at a deeper nesting); lazy_block_order_fail_partial: an error or a panic for one order excludes success for every other order at every fuel;
+       lazy_fuel_mono_partial: a run that does not run out of fuel has the same outcome at every larger fuel.
+   The graphs are related by graph_iso r: r is a bijection of node ids fixing the nodes of g0, node i corresponds to node r i, attribute maps are equal as maps
+   after renaming the node references inside values, each edge vector holds the renamed sinks with equal attribute maps.
+   Parts: STEP 1 lazy_block_shift_partial / lazy_block_swap_partial (one block started at other sizes appends the same delta with shifted ids; adjacent transposition),
+   STEP 2 lazy_exec_phase_perm_partial (any permutation of the execution phase: the blocks' canonical deltas laid out in list order, all configurations),
+   lazy_eval_extract_partial (a successful lazy evaluation phase read back as store valuation + graph operations), STEP 3 lazy_block_order_iso_partial.
+   Earlier theorems (kept): scoped-variable forcing and the deferred graph operations are order independent.
+   NOT proved: blocks that communicate through scoped variables (STEP 4).  The execution phase would extend (cells collect pairs in block order; eager positions must be
+   scoped-free so that no cell is forced early: the K4b class), but the evaluation phase needs new forcing lemmas: with a reader before its definer the value thunk of a
+   definition lies AFTER the reading thunk in the store, so the store is no longer acyclic by index (the well-foundedness used by SLForce/SL2Force and here), and a set value
+   may then mix nodes of several blocks, so values would have to be compared up to re-sorting of sets.  Debug attributes: see c08_debug_attribute_depends_on_order. *)
+From TSG Require Import Model.Lazy Model.Run Model.Stdlib Proofs.Scoped Proofs.PermFacts Proofs.SLGraph Proofs.SLForce Proofs.SLExpr Proofs.SLStmt Proofs.StrictLazy Proofs.EvalPerm Proofs.EvalPermLazy
+  Proofs.BlockPermRen Proofs.BlockPermSim Proofs.BlockPermSwap Proofs.BlockPermExec Proofs.BlockPermDen Proofs.BlockPermGraph Proofs.BlockPermEval Proofs.BlockPermStd Proofs.BlockPermExample Proofs.BlockPermFuel Proofs.BlockPermRun.
 From Coq Require Import Permutation.
 
 (* forcing the definitions collected for one scoped-variable name: whether it succeeds (no duplicate
@@ -82,3 +99,160 @@ Example c08_nonvacuous :
          (LValue (VSyn 5), LValue (VInt 2), {| sc_stmt := (2,1); sc_stanza := (0,0); sc_node := 0 |})] [] []
   = inl [(2, LValue (VInt 1)); (5, LValue (VInt 2))].
 Proof. reflexivity. Qed.
+
+(* ================= the execution phase under a permutation of the blocks ================= *)
+(* STEP 1a.  The same block (stanza, match) started from two states B1, B2 (any contents; graph ids < n0 are shared nodes) proceeds in lockstep:
+   same errors, same panics, same polls; it appends a delta d to B1 and the same delta, with its own graph ids and store locations shifted to the
+   sizes of B2, to B2.  `delta_ok`: fresh nodes carry id-free attributes, values only mention shared nodes or the block's own nodes, thunk j only mentions
+   earlier thunks of the block. *)
+Theorem lazy_block_shift_partial : forall (rx : Type) (t : tree) (fl : file) (cfg : config) (glob : globals) (regexes : list rx)
+    (find : rx -> str -> option (list (option (N * N)))) (call : ident -> graph -> list value -> res (value * graph))
+    (eaok : amap -> Prop) (okfn : ident -> Prop) (n0 : N),
+  (forall l : loc, eaok match c_loc_attr cfg with Some k => [(k, VStr (loc_text l))] | None => [] end) ->
+  (forall f : ident, okfn f -> call_ok call f) ->
+  (forall (name : ident) (v : value), globals_get glob name = Some v -> vall (fun i : N => i < n0) v) ->
+  forall (st : stanza) (qm : qmatch) (fuel : nat) (B1 B2 : lstate) (p : polls),
+  block_ok fl okfn st qm -> n0 <= gn B1 -> n0 <= gn B2 -> one_frame B1 -> one_frame B2 ->
+  match lexec_stanza t fl cfg glob regexes find call fuel st qm B1 p with
+  | Ok (_, s1', p') =>
+      exists (d : delta) (s2' : lstate),
+        lexec_stanza t fl cfg glob regexes find call fuel st qm B2 p = Ok (tt, s2', p') /\ extends B1 d s1' /\
+        extends B2 (dren (shg (gn B1) (gn B2)) (shl (sn B1) (sn B2)) d) s2' /\ delta_ok eaok okfn n0 (gn B1) (sn B1) d
+  | Err e => lexec_stanza t fl cfg glob regexes find call fuel st qm B2 p = Err e
+  | Panic x => lexec_stanza t fl cfg glob regexes find call fuel st qm B2 p = Panic x
+  | OutOfFuel => lexec_stanza t fl cfg glob regexes find call fuel st qm B2 p = OutOfFuel
+  end.
+Proof. exact @block_shift. Qed.
+
+(* STEP 1b: adjacent transposition.  dA, dB: what the two blocks append when run alone from s. *)
+Theorem lazy_block_swap_partial : forall (rx : Type) (t : tree) (fl : file) (cfg : config) (glob : globals) (regexes : list rx)
+    (find : rx -> str -> option (list (option (N * N)))) (call : ident -> graph -> list value -> res (value * graph))
+    (eaok : amap -> Prop) (okfn : ident -> Prop) (n0 : N),
+  (forall l : loc, eaok match c_loc_attr cfg with Some k => [(k, VStr (loc_text l))] | None => [] end) ->
+  (forall f : ident, okfn f -> call_ok call f) ->
+  (forall (name : ident) (v : value), globals_get glob name = Some v -> vall (fun i : N => i < n0) v) ->
+  forall (stA : stanza) (qA : qmatch) (stB : stanza) (qB : qmatch) (fuel : nat) (s : lstate) (p : polls),
+  block_ok fl okfn stA qA -> block_ok fl okfn stB qB -> n0 <= gn s -> one_frame s -> nob p ->
+  match (lexec_stanza t fl cfg glob regexes find call fuel stA qA;;; lexec_stanza t fl cfg glob regexes find call fuel stB qB) s p with
+  | Ok (_, sAB, _) =>
+      exists (dA dB : delta) (sA sB sBA : lstate) (pBA : polls),
+        (lexec_stanza t fl cfg glob regexes find call fuel stB qB;;; lexec_stanza t fl cfg glob regexes find call fuel stA qA) s p = Ok (tt, sBA, pBA) /\
+        delta_ok eaok okfn n0 (gn s) (sn s) dA /\ delta_ok eaok okfn n0 (gn s) (sn s) dB /\
+        extends s dA sA /\ extends sA (dren (shg (gn s) (gn sA)) (shl (sn s) (sn sA)) dB) sAB /\
+        extends s dB sB /\ extends sB (dren (shg (gn s) (gn sB)) (shl (sn s) (sn sB)) dA) sBA
+  | _ => forall r : unit * lstate * polls,
+      (lexec_stanza t fl cfg glob regexes find call fuel stB qB;;; lexec_stanza t fl cfg glob regexes find call fuel stA qA) s p <> Ok r
+  end.
+Proof. exact @block_swap. Qed.
+
+(* STEP 2: any permutation of the execution phase.  `block_delta` = the block succeeds alone from s0 and appends d; running the list from s0 succeeds
+   iff every block does, and yields s0 followed by the deltas in list order, each shifted to the sizes reached before it (`lay`). *)
+Theorem lazy_exec_phase_perm_partial : forall (rx : Type) (t : tree) (fl : file) (cfg : config) (glob : globals) (regexes : list rx)
+    (find : rx -> str -> option (list (option (N * N)))) (call : ident -> graph -> list value -> res (value * graph))
+    (eaok : amap -> Prop) (okfn : ident -> Prop) (n0 : N),
+  (forall l : loc, eaok match c_loc_attr cfg with Some k => [(k, VStr (loc_text l))] | None => [] end) ->
+  (forall f : ident, okfn f -> call_ok call f) ->
+  (forall (name : ident) (v : value), globals_get glob name = Some v -> vall (fun i : N => i < n0) v) ->
+  forall s0 : lstate, n0 <= gn s0 -> one_frame s0 ->
+  forall (fuel : nat) (ms ms' : list (N * qmatch)) (p : polls),
+  Permutation ms ms' -> Forall (pm_ok fl okfn) ms -> nob p ->
+  match iterM (bstep t fl cfg glob regexes find call fuel) ms s0 p with
+  | Ok (_, s', _) =>
+      exists (ds ds' : list delta) (s'' : lstate) (p'' : polls),
+        Forall2 (block_delta t fl cfg glob regexes find call eaok okfn n0 s0 fuel) ms ds /\
+        Forall2 (block_delta t fl cfg glob regexes find call eaok okfn n0 s0 fuel) ms' ds' /\ Permutation ds ds' /\
+        extends s0 (dcat (lay (gn s0) (sn s0) (gn s0) (sn s0) ds)) s' /\
+        iterM (bstep t fl cfg glob regexes find call fuel) ms' s0 p = Ok (tt, s'', p'') /\ nob p'' /\
+        extends s0 (dcat (lay (gn s0) (sn s0) (gn s0) (sn s0) ds')) s''
+  | _ => forall r : unit * lstate * polls, iterM (bstep t fl cfg glob regexes find call fuel) ms' s0 p <> Ok r
+  end.
+Proof. exact @exec_phase_perm. Qed.
+
+(* A successful lazy evaluation phase computed a store valuation rho for which the initial store is well formed, the deferred statements denote graph
+   operations, and the final graph is the result of the operations (the converse of the forcing lemmas of C02) *)
+Theorem lazy_eval_extract_partial : forall (t : tree) (fl : file) (call : ident -> graph -> list value -> res (value * graph)) (okfn : ident -> Prop),
+  (forall f : ident, okfn f -> call_ok call f) ->
+  forall (F : nat) (s : lstate) (p : polls) (u : unit) (fin : lstate) (p' : polls),
+  evaluate_phase t fl call F s p = Ok (u, fin, p') -> evalable okfn s ->
+  exists (rho : list value) (eops : list (N * N)) (aopss : list (list aop)) (g1 : graph),
+    denotes call s rho eops aopss /\ apply_edges eops (l_graph s) = Some g1 /\ apply_attrs (concat aopss) g1 = Some (l_graph fin).
+Proof. exact eval_extract. Qed.
+
+(* STEPS 1-3 with separate fuels: same execution fuel, every large enough evaluation fuel *)
+Theorem lazy_block_order_iso_two_fuels_partial : forall (rx : Type) (t : tree) (fl : file) (supplied : globals) (regexes : list rx)
+    (find : rx -> str -> option (list (option (N * N)))) (call : ident -> graph -> list value -> res (value * graph))
+    (okfn : ident -> Prop) (fuel : nat) (ms ms' : list (N * qmatch)) (g0 : graph) (ls : lstate) (p : polls),
+  (forall f, okfn f -> call_ok call f) -> gclosed (N.of_nat (length g0)) g0 ->
+  (forall glob, check_globals (f_globals fl) (globals_nested supplied) = Ok glob ->
+     forall name v, globals_get glob name = Some v -> vall (fun i => i < N.of_nat (length g0)) v) ->
+  Permutation ms ms' -> Forall (pm_ok fl okfn) ms ->
+  run_lazy t fl config0 supplied None regexes find call fuel ms g0 = Ok (ls, p) ->
+  exists r r', (forall i, r' (r i) = i) /\ (forall i, r (r' i) = i) /\ (forall i, i < N.of_nat (length g0) -> r i = i) /\
+    exists F0, forall F, (F0 <= F)%nat -> exists ls' p', run_lazy2 t fl config0 supplied None regexes find call fuel F ms' g0 = Ok (ls', p') /\
+      graph_iso r (l_graph ls) (l_graph ls').
+Proof. exact @lazy_run_perm. Qed.
+(* run_lazy is run_lazy2 with evaluation fuel `fuel + default_eval_fuel` *)
+Theorem run_lazy_two_fuels : forall (rx : Type) t fl cfg supplied budget (regexes : list rx) find call fuel ms g0,
+  run_lazy t fl cfg supplied budget regexes find call fuel ms g0 = run_lazy2 t fl cfg supplied budget regexes find call fuel (fuel + default_eval_fuel) ms g0.
+Proof. exact @run_lazy_2. Qed.
+
+(* a run that does not run out of fuel has the same outcome at every larger fuel (all programs, all configurations) *)
+Theorem lazy_fuel_mono_partial : forall (rx : Type) t fl cfg supplied budget (regexes : list rx) find call F F' ms g0, (F <= F')%nat ->
+  run_lazy t fl cfg supplied budget regexes find call F ms g0 = OutOfFuel \/
+  run_lazy t fl cfg supplied budget regexes find call F ms g0 = run_lazy t fl cfg supplied budget regexes find call F' ms g0.
+Proof. exact @run_lazy_fuel_mono. Qed.
+
+(* THE WHOLE-RUN THEOREM on the fragment: if the run on ms succeeds, then from some fuel on the run on any permutation ms' succeeds, and the graphs are
+   isomorphic under a renumbering of the graph nodes that fixes the nodes of the initial graph *)
+Theorem lazy_block_order_iso_partial : forall (rx : Type) (t : tree) (fl : file) (supplied : globals) (regexes : list rx)
+    (find : rx -> str -> option (list (option (N * N)))) (call : ident -> graph -> list value -> res (value * graph)) (okfn : ident -> Prop),
+  (forall f, okfn f -> call_ok call f) ->
+  forall g0 : graph, gclosed (N.of_nat (length g0)) g0 ->
+  (forall glob, check_globals (f_globals fl) (globals_nested supplied) = Ok glob ->
+     forall name v, globals_get glob name = Some v -> vall (fun i => i < N.of_nat (length g0)) v) ->
+  forall (fuel : nat) (ms ms' : list (N * qmatch)) (ls : lstate) (p : polls),
+  Permutation ms ms' -> Forall (pm_ok fl okfn) ms ->
+  run_lazy t fl config0 supplied None regexes find call fuel ms g0 = Ok (ls, p) ->
+  exists r r', (forall i, r' (r i) = i) /\ (forall i, r (r' i) = i) /\ (forall i, i < N.of_nat (length g0) -> r i = i) /\
+    exists fuel0, forall fuel', (fuel0 <= fuel')%nat -> exists ls' p',
+      run_lazy t fl config0 supplied None regexes find call fuel' ms' g0 = Ok (ls', p') /\ graph_iso r (l_graph ls) (l_graph ls').
+Proof. exact @lazy_run_perm_fuel. Qed.
+(* ... and the failure direction: an error or a panic for one order excludes success for every other order, whatever the fuel *)
+Theorem lazy_block_order_fail_partial : forall (rx : Type) (t : tree) (fl : file) (supplied : globals) (regexes : list rx)
+    (find : rx -> str -> option (list (option (N * N)))) (call : ident -> graph -> list value -> res (value * graph)) (okfn : ident -> Prop),
+  (forall f, okfn f -> call_ok call f) ->
+  forall g0 : graph, gclosed (N.of_nat (length g0)) g0 ->
+  (forall glob, check_globals (f_globals fl) (globals_nested supplied) = Ok glob ->
+     forall name v, globals_get glob name = Some v -> vall (fun i => i < N.of_nat (length g0)) v) ->
+  forall (fuel : nat) (ms ms' : list (N * qmatch)),
+  Permutation ms ms' -> Forall (pm_ok fl okfn) ms ->
+  (forall r, run_lazy t fl config0 supplied None regexes find call fuel ms g0 <> Ok r) ->
+  run_lazy t fl config0 supplied None regexes find call fuel ms g0 <> OutOfFuel ->
+  forall fuel' r, run_lazy t fl config0 supplied None regexes find call fuel' ms' g0 <> Ok r.
+Proof. exact @lazy_run_perm_fail. Qed.
+
+(* the hypothesis on function calls holds for the standard library, `node`, `format` and `join` excepted *)
+Theorem stdlib_call_ok_partial : forall rxo t f, (forall fn, fn_of_name f = Some fn -> fn_ok fn) -> call_ok (stdlib_call rxo t) f.
+Proof. exact stdlib_call_ok. Qed.
+
+(* non-vacuity: a two-stanza program whose two orders number the nodes differently; the graphs differ and are isomorphic under 0->2, 1->0, 2->1;
+   the hypotheses of lazy_block_order_iso_partial hold for it *)
+Example c08_two_orders :
+  lgraph_of (run_lazy K7.k7_tree c8_file config0 [[]] None ([] : list Regex.regex) Regex.rx_captures c8_call default_fuel c8_ms []) = Ok c8_g /\
+  lgraph_of (run_lazy K7.k7_tree c8_file config0 [[]] None ([] : list Regex.regex) Regex.rx_captures c8_call default_fuel c8_ms' []) = Ok c8_g' /\
+  Permutation c8_ms c8_ms' /\ c8_g <> c8_g' /\ graph_iso c8_r c8_g c8_g'.
+Proof. split; [exact c8_run|]. split; [exact c8_run'|]. split; [apply perm_swap|]. split; [exact c8_differ|exact c8_iso]. Qed.
+Example c08_theorem_applies :
+  exists r r', (forall i, r' (r i) = i) /\ (forall i, r (r' i) = i) /\
+    exists F0, forall F, (F0 <= F)%nat -> exists ls' p',
+      run_lazy2 K7.k7_tree c8_file config0 [[]] None ([] : list Regex.regex) Regex.rx_captures c8_call default_fuel F c8_ms' [] = Ok (ls', p') /\
+      graph_iso r c8_g (l_graph ls').
+Proof. exact c8_theorem_applies. Qed.
+(* outside the fragment (limit of the property): with the location debug attribute configured, an edge created by two stanzas carries the location of the creating
+   statement that is evaluated FIRST (LazyCreateEdge::evaluate only sets the attributes of a new edge; confirmed on the implementation, strict and lazy: the statement of the
+   textually first stanza wins): permuting the blocks (statement locations kept) gives graphs that are not isomorphic.  WHICH statement an edge's debug location names
+   depends on the stanza order; textual reordering changes every location anyway, so C08 can only be meant without debug attributes (config0, as in Step 3). *)
+Example c08_debug_attribute_depends_on_order :
+  dx_run [(0, c8_m); (1, c8_m)] = Ok [{| g_attrs := []; g_edges := [(0, [([108], VStr (dx_loc 50))])] |}] /\
+  dx_run [(1, c8_m); (0, c8_m)] = Ok [{| g_attrs := []; g_edges := [(0, [([108], VStr (dx_loc 54))])] |}].
+Proof. exact dx_order_observable. Qed.
